@@ -156,8 +156,9 @@ def family(img, rng, quick, for_model=True):
 
 def correspondence(ctx):
     rng = ctx.rng
-    budget = BUDGET['quick' if ctx.quick else 'thorough']
-    imgs = c07_images(ctx, rng)
+    budget = dict(BUDGET['quick' if ctx.quick else 'thorough'])
+    budget['total'] = G.scale(ctx, budget['total'])
+    imgs = G.thin(ctx, c07_images(ctx, rng), lambda i: (i.fmt, i.tag))
     # prefixes: one image per format with all of them, a few for some others
     seen = set()
     pre = []
@@ -252,13 +253,13 @@ def allowed_subset(fmt, rng):
                        sorted(set([fmt] + rng.sample(G.FORMATS, 3)), key=G.FORMATS.index)])
 
 
-def vsize_via_wrapper(fmt, data, sizes, allowed=None, how='read', companion=None, k=1, form=0):
+def vsize_via_wrapper(fmt, data, sizes, allowed=None, how='read', companion=None, k=1, form=0, subclass=None):
     """the stream presented through InspectWrapper (read() calls of the given sizes, or iteration over a chunk
     source), closed; virtual_size of the wrapper's inspector for `fmt` and the format the wrapper reports"""
     if not companion:
         # any consumption protocol / call form of the wrapper (insp_gen.drive_wrapper)
         how = {'iter': 'for'}.get(how, how)
-        tail = G.drive_wrapper(data, sizes, how, allowed, None, k, form)
+        tail = G.drive_wrapper(data, sizes, how, allowed, None, k, form, subclass)
         if tail.startswith('COPIES-DIFFER'):
             return tail[:300], '?'
         end, fs, per = tail.split('\t')
@@ -313,7 +314,7 @@ def check_wellformed(ctx, img, expected, fam, fails, what, poll_p=0.35, forced=N
         if len(sizes) <= 1200 and (full or rng.random() < 0.25):
             drive = rng.choice(G.WRAPPER_DRIVES) if len(sizes) >= 2 else rng.choice(['read', 'for', 'next', 'close-twice'])
             variants.append(dict(wrapper=drive, k=rng.randrange(1, max(2, len(sizes))), form=rng.randrange(64),
-                                 allowed=allowed_subset(img.fmt, rng)))
+                                 allowed=allowed_subset(img.fmt, rng), subclass=rng.choice([None, 'trivial', 'override'])))
             if full and len(sizes) >= 2:
                 for drive in G.WRAPPER_DRIVES:
                     variants.append(dict(wrapper=drive, k=rng.randrange(1, len(sizes)), form=rng.randrange(64), allowed=None))
@@ -338,7 +339,7 @@ def check_wellformed(ctx, img, expected, fam, fails, what, poll_p=0.35, forced=N
                 comp = G.companion_of_case(v)
                 if 'wrapper' in v:
                     return vsize_via_wrapper(img.fmt, img.data, sz, v['allowed'], v['wrapper'], comp,
-                                             min(v.get('k', 1), max(1, len(sz) - 1)), v.get('form', 0))[0]
+                                             min(v.get('k', 1), max(1, len(sz) - 1)), v.get('form', 0), v.get('subclass'))[0]
                 return vsize_of(img.fmt, img.data, sz, v.get('poll'), v.get('feed', 'bytes'), v.get('ctor'), comp)
             got = vs(sizes)
             if got == want:
@@ -368,9 +369,11 @@ def check_wellformed(ctx, img, expected, fam, fails, what, poll_p=0.35, forced=N
                 how = '; observers queried after %s' % ('every chunk' if v['poll'] == 'all' else 'chunks %s' % v['poll'][:10])
             elif 'wrapper' in v:
                 how = '; stream presented through InspectWrapper(allowed_formats=%s), protocol "%s" (interrupted after chunk %s, call form %s)' % (
-                    v['allowed'], v['wrapper'], v.get('k'), v.get('form'))
+                    v['allowed'], v['wrapper'], v.get('k'), v.get('form')) + (
+                    ', ALL_FORMATS holding %s subclasses of the inspector classes' % v['subclass'] if v.get('subclass') else '')
             elif v:
                 how = '; chunks presented as %s to %s(%s)' % (v['feed'], img.fmt, ', '.join('%s=%s' % kv for kv in sorted(v['ctor'].items())))
+            ctx.__dict__.setdefault('_c07_clock', G.Clock(ctx)).failed()
             fails.append(Failure(case, {
                 'kind': what + ('' if not v else '-with-another-live-object' if 'companion' in v else '-after-intermediate-queries' if 'poll' in v else '-through-InspectWrapper' if 'wrapper' in v
                                 else '-with-other-chunk-objects-or-constructor-arguments'),
@@ -438,7 +441,8 @@ def far_layouts(ctx, rng, fails, full):
 def search(ctx, seeds, full=False):
     rng = ctx.rng
     fails = []
-    ctx._c07_full = full
+    ctx._c07_full = full and not G.ambient(ctx)        # ambient children: the sampled variants, not all of them per chunking
+    ctx._c07_clock = G.Clock(ctx)
     for s in [s for s in seeds if s.get('kind') == 'sparse' and s.get('expected') is not None][:10]:
         sp, _ = G.sparse_of_case(s)
         check_sparse(ctx, sp, [s['plan']] + [p for p in G.far_plans(sp) if p != s['plan']], fails, s['expected'])
@@ -474,9 +478,11 @@ def search(ctx, seeds, full=False):
         return fails
     rounds = (2 if full else 1) if ctx.quick else (6 if full else 4)
     for _ in range(rounds):
-        imgs = c07_images(ctx, rng, for_search=True)
+        imgs = G.thin(ctx, c07_images(ctx, rng, for_search=True), lambda i: (i.fmt, i.tag))
         first = set()
         for img in imgs:
+            if ctx._c07_clock.expired():
+                return fails
             ctx.count('search/' + img.tag)
             fam = family(img, rng, ctx.quick, False)
             bad = check_wellformed(ctx, img, img.declared, fam, fails, 'virtual-size-is-not-the-declared-size')
@@ -583,7 +589,7 @@ def replay(ctx, payload):
             al = case.get('allowed')
             impl = insp_impl.run_wrap(al, None, data, sizes)[0]
             model = ctx.driver.ask(G.wrap_line(case['content'], sizes, al))
-            v, f = vsize_via_wrapper(fmt, data, sizes, al, case['wrapper'], G.companion_of_case(case), case.get('k', 1), case.get('form', 0))
+            v, f = vsize_via_wrapper(fmt, data, sizes, al, case['wrapper'], G.companion_of_case(case), case.get('k', 1), case.get('form', 0), case.get('subclass'))
             if case.get('companion'):
                 print('  a second InspectWrapper alive at the same time (%s)' % case['companion']['mode'])
             print('  through InspectWrapper(allowed_formats=%s), protocol "%s" (k=%s, form %s): format %s, virtual_size of its %s inspector: %s'
